@@ -558,7 +558,24 @@ func runC06(p *core.Program, r *core.Report) {
 						if l.Pos() != pos {
 							continue
 						}
-						if id, ok := eng.Unparen(as.Rhs[k]).(*ast.Ident); ok {
+						val := eng.Unparen(as.Rhs[k])
+						// the record that holds the limit assigned as a whole: the value of its
+						// limit field in the literal
+						if cl, ok := val.(*ast.CompositeLit); ok && vm.Nested[limF] != nil {
+							val = nil
+							if st, ok := vm.Nested[limF].Type().Underlying().(*types.Struct); ok {
+								for j, el := range cl.Elts {
+									if kv, ok := el.(*ast.KeyValueExpr); ok {
+										if kid, ok := kv.Key.(*ast.Ident); ok && kid.Name == limF.Name() {
+											val = eng.Unparen(kv.Value)
+										}
+									} else if j < st.NumFields() && st.Field(j) == limF {
+										val = eng.Unparen(el)
+									}
+								}
+							}
+						}
+						if id, ok := val.(*ast.Ident); ok {
 							if v, ok := info.Uses[id].(*types.Var); ok && v.Parent() == p.Pkg("vm").Types.Scope() {
 								okL = true
 							}
@@ -591,22 +608,25 @@ func runC06(p *core.Program, r *core.Report) {
 			if !ok || id.Name != "make" || !isCollectionType(oinfo.TypeOf(c.Args[0])) {
 				return true
 			}
-			ln := eng.Unparen(c.Args[1])
-			if tv, ok := oinfo.Types[ln]; ok && tv.Value != nil {
-				return true
+			// the length and, when given, the capacity (`make([]int, 0, size)` filled by append)
+			for _, sz := range c.Args[1:] {
+				ln := eng.Unparen(sz)
+				if tv, ok := oinfo.Types[ln]; ok && tv.Value != nil {
+					continue
+				}
+				if isLenOf(oinfo, ln, func(ast.Expr) bool { return true }) {
+					continue
+				}
+				nMake++
+				key := fmt.Sprintf("%s/make#%d capped", fname, nMake)
+				lid, ok := ln.(*ast.Ident)
+				if !ok {
+					r.Unk("R6.5", key, p.Pos(c.Pos()), "make length is neither a constant, a len(…) nor a local variable")
+					continue
+				}
+				bound, found := upperGuard(oinfo, fd, c.Pos(), oinfo.Uses[lid])
+				r.Check(found, "R6.5", key, p.Pos(c.Pos()), fmt.Sprintf("dominated by a test that leaves when %s exceeds %s", lid.Name, bound), "a compile-time allocation of `"+lid.Name+"` elements is not dominated by an upper-bound test against a constant: `1..1000000000` would allocate at compile time, outside any budget")
 			}
-			if isLenOf(oinfo, ln, func(ast.Expr) bool { return true }) {
-				return true
-			}
-			nMake++
-			key := fmt.Sprintf("%s/make#%d capped", fname, nMake)
-			lid, ok := ln.(*ast.Ident)
-			if !ok {
-				r.Unk("R6.5", key, p.Pos(c.Pos()), "make length is neither a constant, a len(…) nor a local variable")
-				return true
-			}
-			bound, found := upperGuard(oinfo, fd, c.Pos(), oinfo.Uses[lid])
-			r.Check(found, "R6.5", key, p.Pos(c.Pos()), fmt.Sprintf("dominated by a test that leaves when %s exceeds %s", lid.Name, bound), "a compile-time allocation of `"+lid.Name+"` elements is not dominated by an upper-bound test against a constant: `1..1000000000` would allocate at compile time, outside any budget")
 			return true
 		})
 	}
@@ -738,9 +758,14 @@ func upperGuard(info *types.Info, fd *ast.FuncDecl, pos token.Pos, v types.Objec
 		for _, st := range list {
 			if st.End() <= pos {
 				if is, ok := st.(*ast.IfStmt); ok && is.Else == nil && is.Init == nil && blockLeaves(is.Body) {
-					if b, ok := eng.Unparen(is.Cond).(*ast.BinaryExpr); ok && (b.Op == token.GTR || b.Op == token.GEQ) {
-						if id, ok := eng.Unparen(b.X).(*ast.Ident); ok && info.Uses[id] == v {
-							if tv, ok := info.Types[b.Y]; ok && tv.Value != nil {
+					// some alternative of the leaving test is `v > K` / `v >= K`, however oriented
+					isV := func(e ast.Expr) bool {
+						id, ok := eng.Unparen(e).(*ast.Ident)
+						return ok && info.Uses[id] == v
+					}
+					for _, d := range eng.Disjuncts(is.Cond, false) {
+						if _, other, op, ok := eng.CmpOn(d, isV); ok && (op == token.GTR || op == token.GEQ) {
+							if tv, ok := info.Types[other]; ok && tv.Value != nil {
 								bound, found = tv.Value.String(), true
 							}
 						}
